@@ -23,7 +23,7 @@ fn explore(name: &str, params: &Params, bound: usize, trace_first: bool) {
     let t0 = std::time::Instant::now();
     let mut maxdec = 0;
     while let Some(prefix) = stack.pop() {
-        let prog = (def.build)(params);
+        let prog = exec::unclaim(params, (def.build)(params));
         let r = exec::run_one(prog, &prefix, trace_first && n == 0, exec::claim_of(&Params::default().set("claim", params.get("focus", 0))));
         n += 1;
         hashes.insert(r.hash);
@@ -120,7 +120,7 @@ fn main() {
             }
             let def = scen::find(scenario).expect("unknown scenario");
             pin_to_core(0);
-            let prog = (def.build)(&params.clone().set("case", case));
+            let prog = exec::unclaim(&params, (def.build)(&params.clone().set("case", case)));
             let r = exec::run_one(prog, &prefix, true, exec::claim_of(&Params::default().set("claim", params.get("focus", 0))));
             for l in r.trace.clone().unwrap_or_default() {
                 println!("{}", l);
